@@ -129,7 +129,7 @@ var c14Variants = map[string][][]string{
 	"complement": {{}, {"-F", "fasta"}, {"-F", "genbank"}},
 	"reverse":    {{}, {"-F", "fasta"}, {"-F", "genbank"}},
 	"repair":     {{}, {"-F", "fasta"}},
-	"define":     {{"gene", "3..12"}, {"gene", "4..12"}, {"CDS", "3..12"}, {"-q", "note=x", "gene", "3..12"}, {"-q", "note=y", "gene", "3..12"}, {"-q", "note=x", "-q", "gene=z", "gene", "3..12"}, {"-q", "gene=z", "-q", "note=x", "gene", "3..12"}, {"-q", "note=x y", "gene", "3..12"}, {"-q", "note=x", "-q", "y", "gene", "3..12"}, {"-F", "fasta", "gene", "3..12"}},
+	"define":     {{"gene", "join(3..5,8..12)"}, {"gene", "order(3..5,8..12)"}, {"gene", "6"}, {"gene", "5^6"}, {"gene", "complement(3..12)"}, {"gene", "complement(join(3..5,8..12))"}, {"gene", "<3..12"}, {"gene", "3..12"}, {"gene", "4..12"}, {"CDS", "3..12"}, {"-q", "note=x", "gene", "3..12"}, {"-q", "note=y", "gene", "3..12"}, {"-q", "note=x", "-q", "gene=z", "gene", "3..12"}, {"-q", "gene=z", "-q", "note=x", "gene", "3..12"}, {"-q", "note=x y", "gene", "3..12"}, {"-q", "note=x", "-q", "y", "gene", "3..12"}, {"-F", "fasta", "gene", "3..12"}},
 	"delete":     {{"3..12"}, {"3..13"}, {"-e", "3..12"}, {"gene"}, {"-e", "gene"}, {"CDS@^..^+3"}, {"-F", "fasta", "3..12"}},
 	"extract":    {{"gene"}, {"-v", "gene"}, {"CDS"}, {"gene", "CDS"}, {"CDS", "gene"}, {"gene CDS"}, {"-v", "gene", "CDS"}, {"gene", "gene"}, {"misc_feature", "CDS", "gene"}, {"gene", "CDS", "misc_feature"}, {}, {"-v"}, {"-F", "fasta", "gene"}, {"3..12"}, {"-v", "3..12"}},
 	"infix":      {{"10", "{host.gb}"}, {"11", "{host.gb}"}, {"10", "{host2.gb}"}, {"10", "{host3.gb}"}, {"-e", "10", "{host.gb}"}, {"-F", "fasta", "10", "{host.gb}"}},
